@@ -258,31 +258,44 @@ Definition fnref_eqb (a b : fnref) : bool :=
 
 Definition pair_str_eqb (a b : str * str) : bool := str_eqb (fst a) (fst b) && str_eqb (snd a) (snd b).
 
-(* the order of the argument suggestions is not observable (completions are sorted): compare sorted *)
-Definition info_eqb (a b : ninfo) : bool :=
-  str_eqb (ni_name a) (ni_name b) && str_eqb (ni_desc a) (ni_desc b) && umode_eqb (ni_umode a) (ni_umode b) &&
-  Bool.eqb (ni_reqorder a) (ni_reqorder b) && str_eqb (ni_helpname a) (ni_helpname b) &&
-  fnref_eqb (ni_fn a) (ni_fn b) && strs_eqb (sort_strs (ni_suggestions a)) (sort_strs (ni_suggestions b)) &&
-  list_eqb Nat.eqb (ni_sfns a) (ni_sfns b) && list_eqb pair_str_eqb (ni_synargs a) (ni_synargs b).
+(* Which fields of the definition tree are compared depends on what the property reads from it:
+   every check compares what the parser uses (keys and ids, kinds, bounds, valid values, defaults,
+   environment, unknown mode, require order); [bm_help] adds what only the help text shows
+   (descriptions, argument names, default texts, the displayed alias list, synopsis arguments),
+   [bm_compl] what only completion uses (suggestions and their functions), [bm_req] what Dispatch
+   uses (required flag and message, command functions, help command name). *)
+Record bmask := mkBMask { bm_help : bool; bm_compl : bool; bm_req : bool }.
+Definition bmask_all := mkBMask true true true.
 
-Fixpoint node_eqb (fuel : nat) (a b : node) : bool :=
+Definition on (b : bool) (t : bool) : bool := negb b || t.
+
+(* the order of the argument suggestions is not observable (completions are sorted): compare sorted *)
+Definition info_eqb (m : bmask) (a b : ninfo) : bool :=
+  str_eqb (ni_name a) (ni_name b) && umode_eqb (ni_umode a) (ni_umode b) &&
+  Bool.eqb (ni_reqorder a) (ni_reqorder b) &&
+  on (bm_help m) (str_eqb (ni_desc a) (ni_desc b) && list_eqb pair_str_eqb (ni_synargs a) (ni_synargs b)) &&
+  on (bm_req m) (str_eqb (ni_helpname a) (ni_helpname b) && fnref_eqb (ni_fn a) (ni_fn b)) &&
+  on (bm_compl m) (strs_eqb (sort_strs (ni_suggestions a)) (sort_strs (ni_suggestions b)) &&
+                   list_eqb Nat.eqb (ni_sfns a) (ni_sfns b)).
+
+Fixpoint node_eqb (m : bmask) (fuel : nat) (a b : node) : bool :=
   match fuel with
   | O => false
   | S f =>
-      info_eqb (n_info a) (n_info b) &&
+      info_eqb m (n_info a) (n_info b) &&
       list_eqb (fun x y => str_eqb (fst x) (fst y) && Nat.eqb (snd x) (snd y)) (n_opts a) (n_opts b) &&
-      list_eqb (fun x y => str_eqb (fst x) (fst y) && node_eqb f (snd x) (snd y)) (n_cmds a) (n_cmds b)
+      list_eqb (fun x y => str_eqb (fst x) (fst y) && node_eqb m f (snd x) (snd y)) (n_cmds a) (n_cmds b)
   end.
 
-Definition spec_eqb (a b : ospec) : bool :=
+Definition spec_eqb (m : bmask) (a b : ospec) : bool :=
   str_eqb (os_name a) (os_name b) && kind_eqb (os_kind a) (os_kind b) &&
   Nat.eqb (os_min a) (os_min b) && Nat.eqb (os_max a) (os_max b) &&
   strs_eqb (os_valid a) (os_valid b) && str_eqb (os_validq a) (os_validq b) &&
-  Bool.eqb (os_required a) (os_required b) && str_eqb (os_reqmsg a) (os_reqmsg b) &&
-  Bool.eqb (os_booldef a) (os_booldef b) && strs_eqb (os_aliases a) (os_aliases b) &&
-  str_eqb (os_env a) (os_env b) && str_eqb (os_defstr a) (os_defstr b) && str_eqb (os_desc a) (os_desc b) &&
-  str_eqb (os_argname a) (os_argname b) && strs_eqb (os_suggested a) (os_suggested b) &&
-  opt_eqb Nat.eqb (os_sfn a) (os_sfn b).
+  Bool.eqb (os_booldef a) (os_booldef b) && str_eqb (os_env a) (os_env b) &&
+  on (bm_req m) (Bool.eqb (os_required a) (os_required b) && str_eqb (os_reqmsg a) (os_reqmsg b)) &&
+  on (bm_help m) (strs_eqb (os_aliases a) (os_aliases b) && str_eqb (os_defstr a) (os_defstr b) &&
+                  str_eqb (os_desc a) (os_desc b) && str_eqb (os_argname a) (os_argname b)) &&
+  on (bm_compl m) (strs_eqb (os_suggested a) (os_suggested b) && opt_eqb Nat.eqb (os_sfn a) (os_sfn b)).
 
 Definition run_bcase (c : bcase) : option (node * list ospec * list ostate) :=
   match build (pf_of (bc_ftab c)) (bc_env c) (bc_name c) (bc_desc c) (bc_ops c) with
@@ -290,19 +303,21 @@ Definition run_bcase (c : bcase) : option (node * list ospec * list ostate) :=
   | Some b => Some (canon (to_node 64 (b_root b)) (b_specs b) (b_store b))
   end.
 
-Definition check_bcase (c : bcase) : bool :=
+Definition check_bcase_with (m : bmask) (c : bcase) : bool :=
   match run_bcase c with
   | None => bc_panics c
   | Some (r, sp, st) =>
       negb (bc_panics c) &&
       let '(r', sp', st') := canon (bc_root c) (bc_specs c) (bc_store c) in
-      node_eqb 64 r r' && list_eqb spec_eqb sp sp' && list_eqb (state_eqb mask_all) st st'
+      node_eqb m 64 r r' && list_eqb (spec_eqb m) sp sp' && list_eqb (state_eqb mask_all) st st'
   end.
 
-Fixpoint bmismatches_from (i : nat) (cs : list bcase) : list nat :=
+Definition check_bcase (c : bcase) : bool := check_bcase_with bmask_all c.
+
+Fixpoint bmismatches_from (i : nat) (m : bmask) (cs : list bcase) : list nat :=
   match cs with
   | [] => []
-  | c :: cs' => if check_bcase c then bmismatches_from (S i) cs' else i :: bmismatches_from (S i) cs'
+  | c :: cs' => if check_bcase_with m c then bmismatches_from (S i) m cs' else i :: bmismatches_from (S i) m cs'
   end.
 Definition bmismatches := bmismatches_from 0.
 
